@@ -309,6 +309,19 @@ struct Engine
       s.push_back(x);
     return s;
   }
+  static VectorDouble pcaState(const PCA* p)
+  {
+    VectorDouble s;
+    s.push_back(p->getNVar());
+    for (double x : p->getMeans()) s.push_back(x);
+    for (double x : p->getSigmas()) s.push_back(x);
+    for (double x : p->getEigVals()) s.push_back(x);
+    for (double x : p->getEigVecs().getValues()) s.push_back(x);
+    for (double x : p->getC0().getValues()) s.push_back(x);
+    for (double x : p->getZ2Fs().getValues()) s.push_back(x);
+    for (double x : p->getF2Zs().getValues()) s.push_back(x);
+    return s;
+  }
   static int fitAnam(AnamContinuous* a, const DataSet& ds, int form)
   {
     Arr arr = fromData(ds);
@@ -574,9 +587,29 @@ static Value runCase(int id, const Value& cs)
     }
     else if (op == "copy")
     {
-      if (kind == "AH" || kind == "AE") E.c = std::shared_ptr<AnamContinuous>(dynamic_cast<AnamContinuous*>(E.o->clone()));
-      else if (kind == "PCA" || kind == "MAF") E.pc = std::make_shared<PCA>(*E.po);
-      else if (kind == "ROT") E.rc = std::make_shared<Rotation>(*E.ro);
+      // the copy reports the same public state as the original
+      if (kind == "AH" || kind == "AE")
+      {
+        E.c = std::shared_ptr<AnamContinuous>(dynamic_cast<AnamContinuous*>(E.o->clone()));
+        alg.push(algRec("copy-state", vecDist(Engine::anamState(E.o.get()), Engine::anamState(E.c.get()))));
+      }
+      else if (kind == "PCA" || kind == "MAF")
+      {
+        E.pc = std::make_shared<PCA>(*E.po);
+        alg.push(algRec("copy-state", vecDist(Engine::pcaState(E.po.get()), Engine::pcaState(E.pc.get()))));
+      }
+      else if (kind == "ROT")
+      {
+        E.rc = std::make_shared<Rotation>(*E.ro);
+        VectorDouble a = E.ro->getMatrixDirectVec(), b = E.rc->getMatrixDirectVec();
+        for (double x : E.ro->getMatrixInverseVec()) a.push_back(x);
+        for (double x : E.rc->getMatrixInverseVec()) b.push_back(x);
+        for (double x : E.ro->getAngles()) a.push_back(x);
+        for (double x : E.rc->getAngles()) b.push_back(x);
+        a.push_back(E.ro->isRotated()); b.push_back(E.rc->isRotated());
+        a.push_back(E.ro->getNDim()); b.push_back(E.rc->getNDim());
+        alg.push(algRec("copy-state", vecDist(a, b)));
+      }
       ob["err"] = Value(0);
     }
     else
